@@ -7,7 +7,8 @@ import subprocess
 
 from .weave import REPO
 
-PROBED = {'C04', 'C12', 'C07', 'C15'}
+_KANI_CACHE = {}
+PROBED = {'C04', 'C12', 'C07', 'C15', 'C13'}
 
 
 def _run(env_extra, timeout=1500):
@@ -31,10 +32,43 @@ def _run(env_extra, timeout=1500):
     return dict(rc=p.returncode, fails=fails, ok=ok, tail=out[-3000:], cmd=' '.join(cmd))
 
 
+def replay_input(pid, inp):
+    """replay one concrete input (e.g. a Kani counterexample) against the real code; returns the probe's verdict"""
+    import tempfile
+    with tempfile.NamedTemporaryFile('w', suffix='.json', delete=False) as f:
+        json.dump(inp, f)
+        path = f.name
+    try:
+        return _run({'VT_MODE': 'replay', 'VT_PROP': pid, 'VT_INPUT': path})
+    finally:
+        os.unlink(path)
+
+
 def search(pid, violation, rep):
     """run the small-space input search for property pid; fill rep['failing_input'] if found"""
     if pid not in PROBED:
         return None
+    if violation.get('kani'):
+        # Kani gives a counterexample: obtain it by concrete playback and replay it against the real code
+        from . import kani as kani_mod
+        k = violation['kani']
+        key = (k['crate_dir'], k['harness'])
+        if key not in _KANI_CACHE:
+            _KANI_CACHE[key] = kani_mod.concrete_values(k['crate_dir'], k['harness'], k.get('extra_args'))
+        vals = _KANI_CACHE[key]
+        rep['kani_concrete_values'] = vals
+        names = k.get('arg_names')
+        if vals and names and len(vals) >= len(names):
+            inp = dict(zip(names, vals))
+            inp.update(k.get('fixed_args', {}))
+            r = replay_input(pid, inp)
+            rep['input_search_cmd'] = 'kani concrete playback + VT_MODE=replay VT_PROP=%s %s' % (pid, r['cmd'])
+            if r['fails']:
+                rep['failing_input'] = inp
+                rep['failing_input_violates'] = r['fails'][0]['violated']
+                rep['note'] = "Kani's counterexample (concrete playback), replayed against the real code (cargo test --features verif)"
+                return r['fails'][0]
+            rep['note'] = "Kani's counterexample %r did not reproduce through the public API probe" % (inp,)
     r = _run({'VT_MODE': 'search', 'VT_PROP': pid, 'VT_UNIT': violation.get('unit', '')})
     rep['input_search_cmd'] = 'VT_MODE=search VT_PROP=%s %s' % (pid, r['cmd'])
     if r['fails']:
